@@ -10,6 +10,7 @@ import SqlgrepModel.Drivers.ParseStmt
 import SqlgrepModel.Drivers.ParseExpr
 import SqlgrepModel.Drivers.Pipeline
 import SqlgrepModel.Drivers.JsonText
+import SqlgrepModel.Drivers.F64Parse
 /- Line protocol driver: `<kind> <payload…>` per line in, one answer line out. -/
 open Sqlgrep
 
@@ -39,6 +40,7 @@ def dispatch (line : String) : String :=
     | "pexpr" => Drivers.ParseExpr.handle args
     | "e2e" => Drivers.Pipeline.handle args
     | "jsontext" => Drivers.JsonText.handle args
+    | "f64parse" => Drivers.F64Parse.handle args
     | _ => "unknown-kind"
   | _ => "bad-line"
 
